@@ -246,3 +246,75 @@ Proof.
   - intros c Hc E. rewrite E in Hc. discriminate Hc.
   - split; vm_compute; reflexivity.
 Qed.
+
+(** ------------------------------------------------------------------------------------------------
+    Parseval on what wakePotential() RETURNS (strengthening driven by seed C07-H).  [wake_loss] above is the
+    sum over the PADDED buffers; it is blind to where the bunch is put and where its wake is read back.  The
+    property is worded over the bunch: one half of the sum over the bunch of profile times unscaled wake
+    potential.  For ONE bunch held in ANY bucket [bk] (window inside the padded range), for the programs
+    generated from the current source: the sum over the bunch of profile times
+    wakePotential()[x] / _wakescaling  (placed at bk*spacing by the generated padBunchProfiles, read back at
+    the generated read-back index) is the wake loss of the bunch alone, whatever the bucket and the history;
+    hence it differs from the CSR power of the same object by exactly the exempt terms. *)
+From Inovesa Require Import Proofs.EFieldParsevalP.
+
+Theorem C07_generated_returned_loss_is_wake_loss :
+  forall (K : Fld) (P : fobj K) (bk : Z),
+    2 <= oN P -> hypB (E_of K P) -> (forall c : K, osgn P c = Gt -> c <> f0) ->
+    twiddle_laws K (ocs P) (osn P) ->
+    obks P = [bk] -> 0 <= on P -> 0 <= bk * ospc P -> bk * ospc P + on P <= oN P ->
+  forall (h : list (op K)) (p : Z -> K), oscale P <> f0 ->
+    sumZ 0 (Z.to_nat (on P)) (fun x => (p x * (wake (run_gen K P (h ++ [Wake p])) x / oscale P))%F)
+    = wake_loss K (oN P) (ocs P) (osn P) (oZ P) (fun _ => czero) (alone K P p 0).
+Proof. exact gen_returned_loss_is_wake_loss. Qed.
+Print Assumptions C07_generated_returned_loss_is_wake_loss.
+
+Theorem C07_generated_parseval_returned_wake :
+  forall (K : Fld) (P : fobj K) (bk : Z),
+    2 <= oN P -> hypB (E_of K P) -> (forall c : K, osgn P c = Gt -> c <> f0) ->
+    twiddle_laws K (ocs P) (osn P) ->
+    obks P = [bk] -> 0 <= on P -> 0 <= bk * ospc P -> bk * ospc P + on P <= oN P ->
+  forall (h h' : list (op K)) (cut : K) (p : Z -> K),
+    cut_active (osgn P cut) = false -> odf P <> f0 -> odq2 P <> f0 -> oscale P <> f0 ->
+    (csri (run_gen K P (h ++ [CSR cut p])) 0 / (odf P * odq2 P)
+     - sumZ 0 (Z.to_nat (on P)) (fun x => p x * (wake (run_gen K P (h' ++ [Wake p])) x / oscale P)) / two
+     = fst (oZ P 0%Z) * cnorm (formfactor (oN P) (ocs P) (osn P) (alone K P p 0) 0%Z) / two
+       + fst (oZ P (oN P / 2)%Z) * cnorm (formfactor (oN P) (ocs P) (osn P) (alone K P p 0) (oN P / 2)%Z))%F.
+Proof. exact gen_csr_parseval_returned_wake. Qed.
+Print Assumptions C07_generated_parseval_returned_wake.
+
+(** passive impedance: the wake loss over the returned wake potential is non-negative *)
+Theorem C07_generated_returned_loss_nonneg :
+  forall (P : fobj QcF) (bk : Z),
+    2 <= oN P -> hypB (E_of QcF P) -> (forall c : QcF, osgn P c = Gt -> c <> f0) ->
+    twiddle_laws QcF (ocs P) (osn P) ->
+    obks P = [bk] -> 0 <= on P -> 0 <= bk * ospc P -> bk * ospc P + on P <= oN P ->
+    (forall i, 0 <= i < oN P / 2 -> nnQc (fst (oZ P i))) ->
+  forall (h : list (op QcF)) (p : Z -> QcF), oscale P <> f0 ->
+    nnQc (sumZ (K:=QcF) 0 (Z.to_nat (on P)) (fun x => (p x * (wake (run_gen QcF P (h ++ [Wake p])) x / oscale P))%F)).
+Proof. exact gen_returned_loss_nonneg_Qc. Qed.
+Print Assumptions C07_generated_returned_loss_nonneg.
+
+Theorem C07_generated_returned_loss_nonneg_R :
+  forall (P : fobj RF) (bk : Z),
+    2 <= oN P -> hypB (E_of RF P) -> (forall c : RF, osgn P c = Gt -> c <> f0) ->
+    twiddle_laws RF (ocs P) (osn P) ->
+    obks P = [bk] -> 0 <= on P -> 0 <= bk * ospc P -> bk * ospc P + on P <= oN P ->
+    (forall i, 0 <= i < oN P / 2 -> nnR (fst (oZ P i))) ->
+  forall (h : list (op RF)) (p : Z -> RF), oscale P <> f0 ->
+    nnR (sumZ (K:=RF) 0 (Z.to_nat (on P)) (fun x => (p x * (wake (run_gen RF P (h ++ [Wake p])) x / oscale P))%F)).
+Proof. exact gen_returned_loss_nonneg_R. Qed.
+Print Assumptions C07_generated_returned_loss_nonneg_R.
+
+(** non-vacuity: one bunch (1,2) in bucket 1 of a pattern like {1,0} (spacing 2, N = 4, exact table), wake scaling 2;
+    after a CSR call the returned wake is 2*(9,19) read at cells 2,3; sum profile*wake/scaling = 47, power 44:
+    44 - 47/2 = 27/2 + 7 as in the first example *)
+Example C07_returned_wake_example :
+  let P := Fobj QcF 4 cs4 sn4 2 2 [1] ex_Z (Qcz 2) 1%Qc 1%Qc 1%Qc (fun i => Qcz i) (fun x => x)
+                (fun c => (c ?= 0)%Qc) (fun l => l) in
+  let p := getz 0%Qc (map Qcz [1; 2]) in
+  map (wake (run_gen QcF P ([CSR 0%Qc p] ++ [Wake p]))) (zrange 2) = map Qcz [18; 38] /\
+  sumZ (K:=QcF) 0 2 (fun x => (p x * (wake (run_gen QcF P ([CSR 0%Qc p] ++ [Wake p])) x / oscale P))%Qc) = Qcz 47 /\
+  csri (run_gen QcF P ([Wake p] ++ [CSR 0%Qc p])) 0 = Qcz 44 /\
+  map (bp (run_gen QcF P ([CSR 0%Qc p] ++ [Wake p]))) (zrange 4) = map Qcz [0; 0; 1; 2].
+Proof. repeat split; vm_compute; reflexivity. Qed.
